@@ -65,3 +65,88 @@ package types
 //@ callsite verifyMerkleProof [bound-to-contract-slot-value-root] ethProof == callres("produceVerificationArgs", 0) && consensusState == callres("produceVerificationArgs", 1) && contractAddr == cs.ContractAddress && commitment == ackBytes && proofKey == NewProofKeyConstructor(srcChain, dstChain, sequence).GetAckProofKey()
 //@ ensures [guards] result == nil ==> ncalls("produceVerificationArgs") == 1 && callsok("produceVerificationArgs") && ncalls("verifyMerkleProof") == 1 && callsok("verifyMerkleProof")
 //@ ensures [confirmations] result == nil ==> height.GetRevisionHeight() <= cs.Header.Height.RevisionHeight && cs.Header.Height.RevisionHeight - height.GetRevisionHeight() >= cs.GetDelayBlock()
+
+// ======================= C10: the Ethereum client accepts rule-abiding headers only ================================
+// verif:import params github.com/ethereum/go-ethereum/params
+
+// gas limit within 1/1024 of the parent's and at least the protocol minimum (limits below 2^63, as ValidateBasic demands)
+// verif:func VerifyGaslimit
+//@ ensures [within-bound] result == nil && parentGasLimit <= 0x7fffffffffffffff && headerGasLimit <= 0x7fffffffffffffff ==> (parentGasLimit >= headerGasLimit ==> parentGasLimit - headerGasLimit < parentGasLimit / 1024) && (headerGasLimit > parentGasLimit ==> headerGasLimit - parentGasLimit < parentGasLimit / 1024)
+//@ ensures [minimum] result == nil ==> headerGasLimit >= 5000
+
+// EIP-1559 base fee as a function of the parent (mathematical integers)
+// verif:func CalcBaseFee
+//@ let target = toint(parent.GasLimit / 2)
+//@ let base = *parent.ToEthHeader().BaseFee
+//@ ensures [unchanged-at-target] parent.GasUsed == parent.GasLimit/2 ==> *result == base
+//@ ensures [up-above-target] parent.GasUsed > parent.GasLimit/2 ==> *result == base + max(base * toint(parent.GasUsed - parent.GasLimit/2) / target / 8, 1)
+//@ ensures [down-below-target] parent.GasUsed < parent.GasLimit/2 ==> *result == max(base - base * toint(parent.GasLimit/2 - parent.GasUsed) / target / 8, 0)
+
+// verif:func VerifyEip1559Header
+//@ callsite VerifyGaslimit [parent-and-header-limits] parentGasLimit == parent.GasLimit && headerGasLimit == header.GasLimit
+//@ ensures [gas-limit-rule] result == nil ==> ncalls("VerifyGaslimit") == 1 && callsok("VerifyGaslimit")
+//@ ensures [base-fee-rule] result == nil ==> *header.ToEthHeader().BaseFee == *CalcBaseFee(parent)
+
+// the difficulty a child of `parent` at `time` must have: an (assumed) deterministic function of (time, parent)
+// verif:func makeDifficultyCalculator$1
+//@ pure
+
+// accepted only as a child of a header stored under (parent hash, number-1) whose hash is that parent hash, with a
+// later timestamp that is not more than 15 s ahead of the block time, the EIP-1559 rules and (except on Rinkeby) the
+// calculated difficulty
+// verif:func verifyHeader
+//@ let pkey = EthHeaderIndexKey(header.ToEthHeader().ParentHash, header.Height.RevisionHeight-1)
+//@ let parent = as(ifacedecode(kvget(store, pkey)), *Header)
+//@ ensures [parent-stored] result == nil ==> kvhas(store, pkey) && parent != nil
+//@ ensures [parent-hash] result == nil ==> bytes.Equal(parent.ToEthHeader().Hash().Bytes(), header.ToEthHeader().ParentHash.Bytes())
+//@ ensures [timestamps] result == nil ==> header.Time > parent.Time && header.Time <= uint64(blocktime(ctx).Add(allowedFutureBlockTime).Unix())
+//@ callsite VerifyEip1559Header [this-parent-this-header] dollar_parent == parent && *dollar_header == header
+//@ ensures [eip1559] result == nil ==> ncalls("VerifyEip1559Header") == 1 && callsok("VerifyEip1559Header")
+//@ callsite makeDifficultyCalculator$1 [for-this-child] time == header.Time && dollar_parent == parent
+//@ ensures [difficulty] result == nil ==> clientState.ChainId == 4 || *callres("makeDifficultyCalculator$1", 0) == *header.ToEthHeader().Difficulty
+
+// keccak256 of the RLP encoding: an assumed deterministic function of the encoded value
+// verif:func rlpHash
+//@ pure
+
+// stand-alone sanity: gas limit below 2^63, gas used within the limit
+// verif:func (Header).ValidateBasic
+//@ ensures [gas] result == nil ==> h.GasLimit <= 0x7fffffffffffffff && h.GasUsed <= h.GasLimit
+
+// ethash proof-of-work verification (cache generation, hashimoto): outside the verified subset, assumed
+// verif:func VerifyCascadingFields
+//@ trusted
+
+// basic validation, the header rules and - except on Rinkeby (chain id 4) - bounded extra data and the PoW seal
+// verif:func checkValidity
+//@ callsite verifyHeader [this-header-this-client] dollar_header == header && dollar_clientState == clientState && dollar_store == store && dollar_ctx == ctx
+//@ callsite VerifyCascadingFields [this-header] dollar_header == header
+//@ ensures [rules] result == nil ==> ncalls("ValidateBasic") == 1 && callsok("ValidateBasic") && ncalls("verifyHeader") == 1 && callsok("verifyHeader")
+//@ ensures [seal-unless-rinkeby] result == nil && clientState.ChainId != 4 ==> len(header.Extra) <= 32 && ncalls("VerifyCascadingFields") == 1 && callsok("VerifyCascadingFields")
+
+// an accepted header is indexed under (hash, number), its state root points to that index entry, and its
+// (time, height, root) is the consensus state returned for its height
+// verif:func update
+//@ modifies store
+//@ ensures [consensus-state] result2 == nil ==> result1.Timestamp == header.Time && result1.Height == header.Height && result1.Root == header.Root
+//@ ensures [indexed] result2 == nil ==> kvhas(store, EthHeaderIndexKey(header.Hash(), header.Height.RevisionHeight)) && as(ifacedecode(kvget(store, EthHeaderIndexKey(header.Hash(), header.Height.RevisionHeight))), *Header) == header
+//@ ensures [root-points-to-index] result2 == nil ==> kvget(store, EthRootMainKey(header.ToEthHeader().Root, header.Height.RevisionHeight)) == EthHeaderIndexKey(header.Hash(), header.Height.RevisionHeight)
+//@ ensures [client-untouched] result2 == nil ==> *result0 == old(*clientState)
+
+// validated against the client's own state; on success the header is the new head
+// verif:func (ClientState).CheckHeaderAndUpdateState
+//@ modifies store
+//@ callsite checkValidity [own-state-this-header] *clientState == cs && dollar_header == *as(header, *Header) && dollar_store == store && dollar_ctx == ctx
+//@ callsite update [this-header] dollar_header == as(header, *Header) && dollar_store == store
+//@ callsite RestrictChain [only-when-not-a-child-of-the-head] !bytes.Equal(cs.Header.Hash().Bytes(), as(header, *Header).ParentHash) && dollar_new == *as(header, *Header) && dollar_store == store
+//@ ensures [validated] result2 == nil ==> ncalls("checkValidity") == 1 && callsok("checkValidity") && ncalls("update") == 1 && callsok("update")
+//@ ensures [fork-repointed] result2 == nil && !bytes.Equal(old(cs.Header.Hash().Bytes()), as(header, *Header).ParentHash) ==> ncalls("RestrictChain") == 1 && callsok("RestrictChain")
+//@ ensures [head] result2 == nil ==> as(result0, *ClientState).Header == *as(header, *Header)
+//@ ensures [consensus-of-header] result2 == nil ==> as(result1, *ConsensusState) == callres("update", 1)
+
+// fork handling: walks the submitted branch and the current chain down to their common parent and re-points the
+// consensus states of the submitted branch.  Totality ("a valid child of any stored header is still accepted") and the
+// ancestry invariant are whole-history statements over the header tree: covered by the bounded stand-in eth-fork-walk
+// (all acceptance sequences over a small header tree), not proved; here only the frame is proved.
+// verif:func (ClientState).RestrictChain
+//@ modifies store
